@@ -47,7 +47,8 @@ Fixpoint seq_o (l : list outcome) : outcome :=
 (* the object the recognition refers to is the documented one *)
 Definition is_real (w : warning) : bool :=
   match w_recog w with
-  | RBare name => okind_eqb (w_callee w) (OBuiltin name) || okind_eqb (w_callee w) (OUniverseType name)
+  | RBare name => okind_eqb (w_callee w) (OBuiltin name) || okind_eqb (w_callee w) (OUniverseType name) ||
+                  (String.eqb name "nil" && okind_eqb (w_callee w) ONil)
   | RQual _ path => okind_eqb (w_callee w) (OPkgName path)
   | RObject path => okind_eqb (w_callee w) (OPkgName path)
   | RNoSubject => true
@@ -566,6 +567,77 @@ Definition rangeAppendAll_visit (stmt : node) : outcome :=
 
 Definition run_rangeAppendAll (f : file) : outcome := run_stmt rangeAppendAll_visit f.
 
+(* ================= truncateCmp (Expr walker; parameter skipArchDependent) ================= *)
+Definition trunc_names : list string := ["int8"; "int16"; "int32"; "uint8"; "uint16"; "uint32"].
+Definition basic_IsInteger : N := 2.
+Definition kind_Int : N := 2.  Definition kind_Uint : N := 7.  Definition kind_Uintptr : N := 12.
+
+(* isTruncCast: astcast.ToIdent(astcast.ToCallExpr(x).Fun).Name is one of the names *)
+Definition is_trunc_cast (x : node) : bool :=
+  if is_tag TCall x then
+    match kids x with
+    | fn :: _ => is_tag TIdent fn && mem (nstr fn) trunc_names
+    | [] => false
+    end
+  else false.
+
+Definition tc_check (skip : bool) (xcast y : node) : list warning :=
+  match kids xcast with
+  | [fn; x] =>                                                    (* len(xcast.Args) != 1 => return *)
+      match f_basic (nfacts x), f_basic (nfacts y) with
+      | Some (xi, xk, xs), Some (yi, _, ys) =>
+          if N.eqb (N.land xi basic_IsInteger) 0 then [] else
+          if negb (N.eqb xi yi) then [] else
+          if N.eqb xs 0 || N.eqb ys 0 then [] else                (* ctx.SizeOf not ok *)
+          if N.leb xs ys then [] else
+          if skip && (N.eqb xk kind_Int || N.eqb xk kind_Uint || N.eqb xk kind_Uintptr) then [] else
+          [mkw "truncateCmp" xcast (RBare (nstr fn)) fn true]
+      | _, _ => []
+      end
+  | _ => []
+  end.
+
+Definition is_cmp_or_eq_op (op : N) : bool := is_cmp_op op || N.eqb op tok_EQL || N.eqb op tok_NEQ.
+
+Definition truncateCmp_visit (skip : bool) (e : node) : outcome :=
+  match e with
+  | Nd TBinary _ _ op _ _ (NC x (NC y NN)) =>
+      if negb (is_cmp_or_eq_op op) then Ok [] else
+      if is_tag TBasicLit x || is_tag TBasicLit y then Ok [] else
+      match is_trunc_cast x, is_trunc_cast y with
+      | true, true => Ok []
+      | true, false => Ok (tc_check skip x y)
+      | false, true => Ok (tc_check skip y x)
+      | false, false => Ok []
+      end
+  | _ => Ok []
+  end.
+
+Definition run_truncateCmp (skip : bool) (f : file) : outcome := run_expr (truncateCmp_visit skip) f.
+
+(* ================= nilValReturn (Stmt walker) ================= *)
+Definition nilValReturn_visit (stmt : node) : outcome :=
+  if negb (is_tag TIf stmt) then Ok [] else
+  let ks := kids stmt in
+  match nth_error ks (N.to_nat (na stmt)), nth_error ks (N.to_nat (na stmt) + 1) with
+  | Some cond, Some body =>
+      match kids body with
+      | [ret] =>
+          if negb (is_tag TReturn ret) then Ok [] else
+          match cond with
+          | Nd TBinary _ _ op _ _ (NC x (NC y NN)) =>
+              if N.eqb op tok_EQL && f_pure (nfacts x) && String.eqb (qualified_name y) "nil" then
+                if existsb (node_eqb x) (kids ret) then Ok [mkw "nilValReturn" ret (RBare "nil") (callee_ident y) true] else Ok []
+              else Ok []
+          | _ => Ok []
+          end
+      | _ => Ok []
+      end
+  | _, _ => Ok []
+  end.
+
+Definition run_nilValReturn (f : file) : outcome := run_stmt nilValReturn_visit f.
+
 (* ---------- hypotheses of the C20 partial theorems, as predicates on nodes ---------- *)
 (* no identifier spelled [name] denotes anything but the universe object / no qualifier [q] anything but package [path] *)
 Definition g_no_namesake_bare (name : string) (n : node) : bool :=
@@ -591,6 +663,9 @@ Definition run_by_name (name : string) (f : file) : option outcome :=
   else if String.eqb name "badRegexp" then Some (run_badRegexp_entry f)
   else if String.eqb name "regexpPattern" then Some (run_regexpPattern_entry f)
   else if String.eqb name "regexpSimplify" then Some (run_regexpSimplify_entry f)
+  else if String.eqb name "truncateCmp" then Some (run_truncateCmp true f)
+  else if String.eqb name "truncateCmp/noskip" then Some (run_truncateCmp false f)
+  else if String.eqb name "nilValReturn" then Some (run_nilValReturn f)
   else None.
 
 (* entry-guard-only models: the tie compares {ok, panic}, not the warning list *)
